@@ -100,17 +100,13 @@ pub(crate) fn validate_submit(
                 }
             }
         }
-        JobTaskDescription::Graph {
-            tasks,
-            resource_rqs,
-        } => {
+        JobTaskDescription::Graph { tasks, .. } => {
             if let Some(job) = job {
                 for task in tasks {
                     if job.tasks.contains_key(&task.id) {
                         let id = task.id;
                         return Some(SubmitResponse::TaskIdAlreadyExists(id));
                     }
-                    assert!(task.resource_rq_id.as_usize() < resource_rqs.len())
                 }
             }
             let mut task_ids = Set::new();
@@ -145,6 +141,32 @@ fn validate_resource_requests(task_desc: &JobTaskDescription) -> tako::Result<()
     }
 }
 
+/// Checks the task ids of an array and the resource request indices of a graph.
+/// They are valid when they come from the client, but the server cannot rely on it;
+/// creating tasks from such a submit would panic.
+fn validate_submit_ids(task_desc: &JobTaskDescription) -> Result<(), String> {
+    match task_desc {
+        JobTaskDescription::Array { ids, .. } => {
+            ids.validate().map_err(|e| format!("task ids: {e}"))
+        }
+        JobTaskDescription::Graph {
+            tasks,
+            resource_rqs,
+        } => match tasks
+            .iter()
+            .find(|task| task.resource_rq_id.as_usize() >= resource_rqs.len())
+        {
+            Some(task) => Err(format!(
+                "task {} uses resource request {}, but the submit has only {} resource request(s)",
+                task.id,
+                task.resource_rq_id,
+                resource_rqs.len()
+            )),
+            None => Ok(()),
+        },
+    }
+}
+
 #[allow(clippy::await_holding_refcell_ref)] // Disable lint as it does not work well with drop
 pub(crate) fn handle_submit(
     state_ref: &StateRef,
@@ -155,6 +177,11 @@ pub(crate) fn handle_submit(
 
     if let Err(e) = validate_resource_requests(&message.submit_desc.task_desc) {
         return ToClientMessage::Error(format!("Invalid resource request: {e}"));
+    }
+
+    // This has to precede everything that iterates the task ids
+    if let Err(e) = validate_submit_ids(&message.submit_desc.task_desc) {
+        return ToClientMessage::Error(format!("Invalid submit: {e}"));
     }
 
     if let JobTaskDescription::Array {
